@@ -58,6 +58,7 @@ func NewTimer(d time.Duration, fn func(), period time.Duration) *Timer {
 		t.C = make(chan time.Time, 1)
 	}
 	s.timers = append(s.timers, t)
+	raceReleaseMerge(t)
 	return t
 }
 
@@ -93,6 +94,7 @@ func (t *Timer) Reset(d time.Duration) bool {
 	}
 	t.when = deadline(t.s, d)
 	t.armed = true
+	raceReleaseMerge(t) // starting a timer happens before its function runs
 	if t.period > 0 {
 		t.period = int64(d)
 	}
@@ -144,7 +146,7 @@ func (s *Sched) Fire(t *Timer) {
 		t.armed = false
 	}
 	if t.fn != nil {
-		s.Spawn("timer@"+t.Site, t.fn)
+		s.Spawn("timer@"+t.Site, t.runFn)
 		return
 	}
 	select {
@@ -162,3 +164,9 @@ func (t *Timer) When() time.Duration { return time.Duration(t.when) }
 //
 //go:norace
 func (s *Sched) Advance(d time.Duration) { s.clock += int64(d) }
+
+//go:norace
+func (t *Timer) runFn() {
+	raceAcquire(t)
+	t.fn()
+}
